@@ -97,7 +97,16 @@ def _rnd(a, dtype):
 
 
 def _t(a, dtype):
-    return torch.tensor(np.asarray(a), dtype=tu.TD[dtype])
+    """tensor handed to pypose.  One in three (chosen by a checksum of the values, so a pure function of the case) of the tensors
+    with >= 2 dimensions and more than one row and column is stored column-major in its last two dimensions (same values, other
+    strides - what points.mT.contiguous().mT, a slice of a bigger array or a transposed load looks like): memory layout is an input
+    dimension for functions that reshape / view / write in place internally."""
+    import zlib
+    arr = np.asarray(a)
+    t = torch.tensor(arr, dtype=tu.TD[dtype])
+    if t.dim() >= 2 and t.shape[-1] > 1 and t.shape[-2] > 1 and zlib.crc32(np.ascontiguousarray(arr).tobytes()) % 3 == 0:
+        t = t.mT.contiguous().mT
+    return t
 
 
 def _sizeclass(n):
